@@ -338,12 +338,22 @@ fn print_version() {
 /// with the exit code. Note that the first string in args is expected to be
 /// the name of the executable.
 pub fn find_main(args: &[&str], deps: &dyn Dependencies) -> i32 {
-    match do_find(&args[1..], deps) {
+    let ret = match do_find(&args[1..], deps) {
         Ok(ret) => ret,
         Err(e) => {
-            writeln!(&mut stderr(), "Error: {e}").unwrap();
+            let _ = writeln!(&mut stderr(), "Error: {e}");
             1
         }
+    };
+    // Output that is still buffered (-printf without a newline) has to reach its
+    // destination too; a reader that has gone away is not worth a message.
+    match deps.get_output().borrow_mut().flush() {
+        Err(e) if e.kind() != std::io::ErrorKind::BrokenPipe => {
+            let _ = writeln!(&mut stderr(), "Error writing to standard output: {e}");
+            1
+        }
+        Err(_) if ret == 0 => 1,
+        _ => ret,
     }
 }
 
